@@ -181,4 +181,29 @@ CHECKS = {
         "note": "Chunks of at most 24 voxels; JPEG validity after mutation "
                 "is not judged (only shape/dtype or the documented error).",
     },
+    "C17": {
+        "engine": "E-INPUT", "level": "exploration",
+        "technique": "bounded exhaustive enumeration (mesh shapes, every "
+                     "truncation/byte edit/short byte string for the "
+                     "reader, signed-permutation affine lattice, script "
+                     "option product) vs struct-layout / VTK-subset / "
+                     "signed-volume oracles",
+        "text": "Writers: 25 (V,M) mesh shapes x 4 attribute sets compared "
+                "with the struct layout, read back, and the VTK text parsed "
+                "by a subset-grammar parser. Reader: every truncation, "
+                "every byte position x all 256 values, count/index field "
+                "edits of 5 valid files, all byte strings of length <= 2 "
+                "(<= 3 thorough) and <= 7 over 5 letters, each classified "
+                "valid/invalid by the format text: valid must be returned "
+                "exactly, invalid must raise InvalidMeshDataError. Affine: "
+                "tetrahedron and cube x (192 signed scaled permutations + "
+                "shears, rotation, near-singular, singular) x 3 "
+                "translations x 3x4/4x4 forms: vertices, winding parity "
+                "reversed iff det < 0, signed volume sign. Scripts: GIFTI "
+                "conversion (mm to nm, info mesh key, mismatching "
+                "--mesh-dir refused, transforms) and fragment-link tables "
+                "(exact file set and JSON).",
+        "note": "Trusts DESIGN.md App. A.4/A.5; vertex positions compared "
+                "with stated float tolerances.",
+    },
 }
